@@ -11,12 +11,12 @@ Definition sheet_mesgs : list mesg := mesgs_of name_fixes ProfileSpec.mesg_rows.
 (* (2) the factory table, entry by entry *)
 Lemma factory_matches_spreadsheet :
   expected_table name_fixes ProfileSpec.type_rows ProfileSpec.mesg_rows = Some Factory.mesgs.
-Proof. vm_compute. reflexivity. Qed.
+Proof. apply opt_table_eqb_eq. vm_compute. reflexivity. Qed.
 
 (* (2) names and units of fields and sub-fields *)
 Lemma names_match_spreadsheet :
   expected_names name_fixes ProfileSpec.type_rows ProfileSpec.mesg_rows = FactoryNames.names.
-Proof. vm_compute. reflexivity. Qed.
+Proof. apply names_eqb_eq. vm_compute. reflexivity. Qed.
 
 (* known finding spelling_corrected_names: without RULE 10 the names do NOT agree *)
 Lemma literal_names_differ :
@@ -26,7 +26,7 @@ Proof. apply (list_eqb_neq nameentry_eqb nameentry_eqb_refl). vm_compute. reflex
 (* the numeric table does not depend on the corrections *)
 Lemma factory_matches_literal_reading :
   expected_table [] ProfileSpec.type_rows ProfileSpec.mesg_rows = Some Factory.mesgs.
-Proof. vm_compute. reflexivity. Qed.
+Proof. apply opt_table_eqb_eq. vm_compute. reflexivity. Qed.
 
 (* the reading is well formed: names unique, every component name is a field of its message (RULE 6 never falls back) *)
 Lemma sheet_well_formed :
